@@ -195,6 +195,7 @@ CLAIMED["C14"]["text"] += (" AmendedRequest::set_header itself is translated (co
 CLAIMED["C13"]["text"] += (" AmendedRequest::unset_header itself is translated and equals the reading used above for the three names the redirect passes (c13_code_unset_header, c13_code_unset_header_invalid).")
 CLAIMED["C19"]["text"] += (" BodyWriter::write itself (with its chunk loop) is translated from src/body.rs on every run and proved to produce the model's result for every mode, flag, input and capacity (c19_code_write_equiv, proofs/Gen2_equiv_writer.v), so the progress theorems are about the code.")
 CLAIMED["C19"]["technique"] += " + the code's own functions translated to Gallina on every run and proved equivalent to the model"
+CLAIMED["C11"]["text"] += (" HeaderIterExt::has_expect_100 (the Expect test behind the await flag) is translated from src/ext.rs and is the model's test (c11_code_has_expect_100).")
 for _p in ("C02", "C03", "C04", "C06", "C07", "C08", "C09", "C10", "C11", "C12", "C13", "C16", "C17", "C18"):
     CLAIMED[_p]["technique"] += " + the code's own functions translated to Gallina on every run and proved equivalent to the model"
 
